@@ -83,8 +83,9 @@ CONN_ASSUMPTIONS = [
 
 PROPS = {
     "C04": {
-        "batches": resp_batches([["resp", "c04", 1500, 0]], [["resp", "c04", 20000, 1], ["resp", "c05", 0, 1]]),
-        "replay_bin": "pristine",
+        "batches": lambda tier: resp_batches([["resp", "c04", 1500, 0]], [["resp", "c04", 20000, 1], ["resp", "c05", 0, 1]])(tier)
+                   + conn_batches([("c02", 150)], [("c02", 3000), ("mixed", 1000)])(tier),
+        "replay_bin": "pristine", "need": ["wire", "eof", "nohang", "results"], "agr_need": ["wire", "eof"],
         "rule": "Response::raw_print (public API, pristine crate) on the boundary product status class x body length "
                 "{0,1,16,255,8191,8192,8193,16384,16385,32768,...} x declared/undeclared x threshold x version x HEAD x TE x piece "
                 "shapes, plus structured random responses; a case is non-trivial when the C04 predicate applies (well-formed "
